@@ -60,6 +60,7 @@ type Ctx struct {
 	fpParts []string
 	known  map[string]bool // known-finding signatures (read-only)
 	mark   func(string)
+	mu     sync.Mutex // monitors call into the context from callback goroutines too
 }
 
 // CrashContext records (durably, before the risky step) what the case is about to do, so that a worker
@@ -74,6 +75,12 @@ func (c *Ctx) Thorough() bool { return c.Tier == "thorough" }
 
 // Violate records the first violation of the case.
 func (c *Ctx) Violate(sig, detail string, witness interface{}) {
+	c.mu.Lock()
+	defer c.mu.Unlock()
+	c.violate(sig, detail, witness)
+}
+
+func (c *Ctx) violate(sig, detail string, witness interface{}) {
 	if c.res.Verdict == Violated {
 		return
 	}
@@ -85,6 +92,8 @@ func (c *Ctx) Violate(sig, detail string, witness interface{}) {
 
 // KnownOrViolate: if sig is a listed known finding, record the hit (the case goes on or stops as the caller decides) and return true.
 func (c *Ctx) KnownOrViolate(sig, detail string, witness interface{}) bool {
+	c.mu.Lock()
+	defer c.mu.Unlock()
 	if c.known[sig] {
 		for _, k := range c.res.Known {
 			if k.Sig == sig {
@@ -94,13 +103,23 @@ func (c *Ctx) KnownOrViolate(sig, detail string, witness interface{}) bool {
 		c.res.Known = append(c.res.Known, KnownHit{sig, detail})
 		return true
 	}
-	c.Violate(sig, detail, witness)
+	c.violate(sig, detail, witness)
 	return false
 }
 
-func (c *Ctx) Failed() bool { return c.res.Verdict == Violated }
+func (c *Ctx) Failed() bool {
+	c.mu.Lock()
+	defer c.mu.Unlock()
+	return c.res.Verdict == Violated
+}
 
 func (c *Ctx) Inconclusive(reason string) {
+	c.mu.Lock()
+	defer c.mu.Unlock()
+	c.inconclusive(reason)
+}
+
+func (c *Ctx) inconclusive(reason string) {
 	if c.res.Verdict == Violated {
 		return
 	}
@@ -110,34 +129,52 @@ func (c *Ctx) Inconclusive(reason string) {
 
 // InconclusiveW is Inconclusive with a witness attached.
 func (c *Ctx) InconclusiveW(reason string, w interface{}) {
+	c.mu.Lock()
+	defer c.mu.Unlock()
 	if c.res.Verdict == Violated {
 		return
 	}
-	c.Inconclusive(reason)
+	c.inconclusive(reason)
 	c.res.Witness = w
 }
 
 // Feature marks a non-trivial feature this case exercised.
-func (c *Ctx) Feature(f string) { c.feat[f] = true }
+func (c *Ctx) Feature(f string) {
+	c.mu.Lock()
+	c.feat[f] = true
+	c.mu.Unlock()
+}
 
 // Nontrivial marks the case as non-trivial by the check's rule.
-func (c *Ctx) Nontrivial() { c.res.Nontrivial = true }
+func (c *Ctx) Nontrivial() {
+	c.mu.Lock()
+	c.res.Nontrivial = true
+	c.mu.Unlock()
+}
 
 // FP adds a component to the case fingerprint (what makes the case distinct).
 func (c *Ctx) FP(parts ...interface{}) {
+	c.mu.Lock()
+	defer c.mu.Unlock()
 	for _, p := range parts {
 		c.fpParts = append(c.fpParts, fmt.Sprint(p))
 	}
 }
 
 func (c *Ctx) Count(k string, n int64) {
+	c.mu.Lock()
+	defer c.mu.Unlock()
 	if c.res.Counters == nil {
 		c.res.Counters = map[string]int64{}
 	}
 	c.res.Counters[k] += n
 }
 
-func (c *Ctx) Sample(v interface{}) { c.res.Sample = v }
+func (c *Ctx) Sample(v interface{}) {
+	c.mu.Lock()
+	c.res.Sample = v
+	c.mu.Unlock()
+}
 
 // Check describes one property's machinery.
 type Check struct {
